@@ -79,8 +79,106 @@ var c03Derives = []c03Derive{
 	{"sort_by(length)", func(r *rand.Rand, s *ref.V) *ref.Expr { return ref.Fn1("sort_by", ref.Fn0("length")) }},
 }
 
+// c03MergeKeyCase: maps that merge an anchored map (`<<: *d`) and have entries of their own, some of which replace a
+// merged entry. Deleting an entry a map has itself removes that entry (one line of the text) and nothing else - the
+// anchored map and the other maps that merge it keep everything.
+func c03MergeKeyCase(r *rand.Rand) mon.Result {
+	sc := func() string { return []string{"1", "3", "x", "w", "true", "2.5", "80", "app"}[r.IntN(8)] }
+	type line struct{ text, id string }
+	var ls []line
+	add := func(t, id string) { ls = append(ls, line{t, id}) }
+	add("defaults: &d", "")
+	add("  replicas: "+sc(), "")
+	add("  port: "+sc(), "")
+	add("  tier: "+sc(), "")
+	add("web:", "")
+	// (own entries stand after the merge key: which side wins when the merge key comes later is the recorded C13 deviation)
+	ownFirst := false
+	if ownFirst {
+		add("  replicas: 33", "web.replicas")
+	}
+	if r.IntN(4) == 0 {
+		add("  <<: [*d]", "")
+	} else {
+		add("  <<: *d", "")
+	}
+	if !ownFirst {
+		add("  replicas: 33", "web.replicas")
+	}
+	add("  name: "+sc(), "web.name")
+	if r.IntN(2) == 0 {
+		add("  tier: 77", "web.tier")
+	}
+	add("api:", "")
+	add("  <<: *d", "")
+	add("  own: "+sc(), "api.own")
+	add("  port: 99", "api.port")
+	add("last: "+sc(), "last")
+	var ids []string
+	for _, l := range ls {
+		if l.id != "" {
+			ids = append(ids, l.id)
+		}
+	}
+	// one or two of the own entries, selected by path, by value or behind a predicate
+	gone := map[string]bool{ids[r.IntN(len(ids))]: true}
+	if r.IntN(3) == 0 {
+		gone[ids[r.IntN(len(ids))]] = true
+	}
+	var sel []string
+	for _, id := range ids {
+		if !gone[id] {
+			continue
+		}
+		switch {
+		case id == "web.replicas" && r.IntN(3) == 0:
+			sel = append(sel, ".. | select(. == 33)")
+		case id == "api.port" && r.IntN(3) == 0:
+			sel = append(sel, ".api | .port")
+		case r.IntN(4) == 0 && id != "last":
+			i := strings.Index(id, ".")
+			sel = append(sel, "."+id[:i]+"[\""+id[i+1:]+"\"]")
+		default:
+			sel = append(sel, "."+id)
+		}
+	}
+	if r.IntN(2) == 0 {
+		for i, j := 0, len(sel)-1; i < j; i, j = i+1, j-1 {
+			sel[i], sel[j] = sel[j], sel[i]
+		}
+	}
+	expr := "del(" + strings.Join(sel, ", ") + ")"
+	if len(sel) == 1 && r.IntN(4) == 0 {
+		expr = "del(" + sel[0] + " | select(. != \"no such\"))"
+	}
+	var in, want strings.Builder
+	for _, l := range ls {
+		in.WriteString(l.text + "\n")
+		if !gone[l.id] {
+			want.WriteString(l.text + "\n")
+		}
+	}
+	res := mon.Result{Tags: []string{"family:merge_key_maps"}, Nontrivial: true, Evals: 1}
+	res.Case = map[string]any{"doc": in.String(), "expr": expr, "family": "merge_key_maps"}
+	res.Sig = fmt.Sprintf("mergekey|%s|%v|%d", expr, ownFirst, len(ls))
+	out, err, pan := yqx.Eval(expr, in.String(), "yaml", "yaml")
+	out = strings.ReplaceAll(out, "!!merge <<:", "<<:") // (the printer spells the merge key's tag out; not this property's matter)
+	switch {
+	case pan != nil || err != nil:
+		res.Verdict, res.Detail = mon.Violated, fmt.Sprintf("`%s` failed: %v %v\n%s", expr, err, pan, in.String())
+	case out != want.String():
+		res.Verdict, res.Detail = mon.Violated, fmt.Sprintf("`%s` must remove the selected own entries and nothing else\n input:\n%s expected:\n%s observed:\n%s", expr, in.String(), want.String(), out)
+	default:
+		res.Verdict, res.Detail = mon.Held, fmt.Sprintf("%d own entr(ies) removed, the merged map untouched", len(gone))
+	}
+	return res
+}
+
 func (p c03) Run(w *mon.Worker, idx int) mon.Result {
 	r := w.Rand(idx)
+	if idx%45 == 17 {
+		return c03MergeKeyCase(r)
+	}
 	pr := gen.Default()
 	pr.NoBigInt, pr.SmallInts = true, true
 	pr.MaxDepth = 2 + r.IntN(3)
